@@ -534,10 +534,18 @@ class Run:
             cov["transitions"] = max(1, int(self.summary.get("ops", 0)) + int(self.summary.get("feeds", 0)))
             cov["explanation_states"] = "no bounded model in this tier: states/transitions count the states and steps of the trace-validation runs"
         ev = {"property_id": self.prop, "tier": self.tier, "seed": self.seed, "level": self.plan.get("level", "model_checking"),
-              "coverage": cov, "assumptions": self.plan.get("assumptions", []), "wall_s": round(wall, 1),
+              "coverage": cov, "assumptions": self.plan.get("assumptions", DEFAULT_ASSUMPTIONS), "wall_s": round(wall, 1),
               "violations": self.violations}
         os.makedirs(os.path.join(OUT, "evidence"), exist_ok=True)
         json.dump(ev, open(os.path.join(OUT, "evidence", self.prop + ".json"), "w"), indent=1)
+
+DEFAULT_ASSUMPTIONS = [
+    "implementation conformance is established for the explored transitions only (bounded-exhaustive families, multi-step sequence models, seeded random histories)",
+    "characters are explored by class (one or a few representatives per class the code distinguishes); display width and combining-ness of each character are environment facts logged by the harness from unicode-width / unicode-normalization",
+    "geometries are enumerated exhaustively only on the small sets named in mc_runs; larger ones (up to 140x40, DECCOLM 132) are reached by random walks",
+    "the projection of the screen (harness/src/project.rs) reads public fields and treats a never-written cell as the screen's default character",
+    "where the statement leaves an outcome open (DESIGN.md 5.3) every allowed outcome is accepted",
+]
 
 def do_replay(prop, path, wd):
     from plans import PLANS
